@@ -702,7 +702,7 @@ func runC20(c *mon.Ctx) {
 
 	// B: scalars
 	r = c.Rand("c20/scalars")
-	for i, n := 0, c.N(120000, 12000000); i < n; i++ {
+	for i, n := 0, c.N(120000, 40000000); i < n; i++ {
 		k := kind(i % int(numKinds))
 		if k == kString || k == kBytes {
 			continue
@@ -726,7 +726,7 @@ func runC20(c *mon.Ctx) {
 
 	// C: concatenations
 	r = c.Rand("c20/tuples")
-	for i, n := 0, c.N(20000, 2500000); i < n; i++ {
+	for i, n := 0, c.N(20000, 8000000); i < n; i++ {
 		vals := make([]val, 1+r.IntN(12))
 		for j := range vals {
 			vals[j] = randTupleVal(r)
@@ -837,7 +837,7 @@ func runC20(c *mon.Ctx) {
 	}
 	// D6 random bytes
 	firsts := []byte{0, 1, 3, 252, 253, 254, 255}
-	for i, n := 0, c.N(6000, 800000); i < n; i++ {
+	for i, n := 0, c.N(6000, 2500000); i < n; i++ {
 		l := r.IntN(80)
 		if r.IntN(8) == 0 {
 			l = r.IntN(600)
